@@ -1,9 +1,208 @@
 package main
 
-// Static (generator-discharged) obligations: entry points, frame completeness, effects.
+import (
+	"encoding/json"
+	"fmt"
+	"go/constant"
+	"sort"
+	"strings"
+
+	"golang.org/x/tools/go/ssa"
+)
+
+// Static (generator-discharged) obligations: frame completeness, entry points, effects. Back end: govc-static.
 
 func (p *Program) runStatic(name string, cfg *PropConfig, ld LoadSpec) []*Obligation {
 	switch name {
+	case "frame-complete":
+		return p.staticFrameComplete(cfg, ld)
+	case "entrypoints":
+		return p.staticEntryPoints(cfg, ld)
+	case "effects":
+		return p.staticEffects(cfg, ld)
 	}
 	return []*Obligation{{Unit: "static", Kind: "static", Label: name, Goal: False, Src: "unknown static analysis " + name}}
 }
+
+type frameArgs struct {
+	Families       map[string][]string `json:"families"`        // family -> functions allowed to write it directly
+	AllowedUnknown []string            `json:"allowed_unknown"` // functions allowed to write with an unresolved key
+	Bank           map[string][]string `json:"bank"`            // "mint","burn","send" -> functions allowed to call them directly
+	Module         string              `json:"module"`
+}
+
+// resolveKeyFamily: which declared family does a store key value belong to ("" = unknown)?
+func (p *Program) resolveKeyFamily(v ssa.Value, depth int) string {
+	if depth > 6 {
+		return ""
+	}
+	switch k := v.(type) {
+	case *ssa.Call:
+		if fn := k.Call.StaticCallee(); fn != nil {
+			key := p.funcKey(fn)
+			if fam, ok := p.families[key]; ok {
+				return fam.Name
+			}
+			if fam, ok := p.prefixFns[key]; ok {
+				return fam.Name
+			}
+			// append(prefix, ...) wrappers and helpers: look inside one level for a single family
+			if p.isRepoFunc(fn) && fn.Blocks != nil {
+				fams := map[string]bool{}
+				for _, b := range fn.Blocks {
+					for _, ins := range b.Instrs {
+						if r, ok := ins.(*ssa.Return); ok && len(r.Results) == 1 {
+							fams[p.resolveKeyFamily(r.Results[0], depth+1)] = true
+						}
+					}
+				}
+				if len(fams) == 1 {
+					for f := range fams {
+						return f
+					}
+				}
+			}
+		}
+		if b, ok := k.Call.Value.(*ssa.Builtin); ok && b.Name() == "append" {
+			return p.resolveKeyFamily(k.Call.Args[0], depth+1)
+		}
+	case *ssa.Convert:
+		if c, ok := k.X.(*ssa.Const); ok && c.Value != nil && c.Value.Kind() == constant.String {
+			if fam, ok := p.families["const:"+constant.StringVal(c.Value)]; ok {
+				return fam.Name
+			}
+		}
+		return p.resolveKeyFamily(k.X, depth+1)
+	case *ssa.ChangeType:
+		return p.resolveKeyFamily(k.X, depth+1)
+	case *ssa.UnOp:
+		if g, ok := k.X.(*ssa.Global); ok {
+			if fam, ok := p.families["global:"+g.Pkg.Pkg.Name()+"."+g.Name()]; ok {
+				return fam.Name
+			}
+		}
+	case *ssa.Slice:
+		return p.resolveKeyFamily(k.X, depth+1)
+	case *ssa.Phi:
+		fams := map[string]bool{}
+		for _, e := range k.Edges {
+			fams[p.resolveKeyFamily(e, depth+1)] = true
+		}
+		if len(fams) == 1 {
+			for f := range fams {
+				return f
+			}
+		}
+	}
+	return ""
+}
+
+type storeWrite struct {
+	Func   string
+	Family string
+	Op     string
+	Pos    string
+}
+
+func (p *Program) storeWrites() []storeWrite {
+	var out []storeWrite
+	x := &Exec{prog: p}
+	for _, key := range sortedKeys(p.funcsByKey) {
+		fn := p.funcsByKey[key]
+		if fn.Blocks == nil || strings.HasSuffix(x.pos(fn.Pos()), "_test.go") {
+			continue
+		}
+		for _, b := range fn.Blocks {
+			for _, ins := range b.Instrs {
+				ci, ok := ins.(ssa.CallInstruction)
+				if !ok {
+					continue
+				}
+				cc := ci.Common()
+				var op string
+				var keyArg ssa.Value
+				if cc.IsInvoke() {
+					in := ifaceName(cc.Value.Type())
+					if (in == "KVStore" || in == "BasicKVStore") && (cc.Method.Name() == "Set" || cc.Method.Name() == "Delete") {
+						op, keyArg = cc.Method.Name(), cc.Args[0]
+					}
+				} else if sc := cc.StaticCallee(); sc != nil {
+					n := sc.String()
+					if n == "(cosmossdk.io/store/prefix.Store).Set" || n == "(cosmossdk.io/store/prefix.Store).Delete" {
+						op, keyArg = sc.Name(), cc.Args[1]
+					}
+				}
+				if op == "" {
+					continue
+				}
+				out = append(out, storeWrite{Func: key, Family: p.resolveKeyFamily(keyArg, 0), Op: op, Pos: x.pos(ins.Pos())})
+			}
+		}
+	}
+	return out
+}
+
+func (p *Program) staticFrameComplete(cfg *PropConfig, ld LoadSpec) []*Obligation {
+	var args frameArgs
+	if raw, ok := cfg.StaticArgs["frame-complete"]; ok {
+		if err := json.Unmarshal(raw, &args); err != nil {
+			return []*Obligation{{Unit: "static", Kind: "frame-complete", Label: "config", Goal: False, Src: err.Error()}}
+		}
+	}
+	if args.Module != "" && args.Module != ld.Module {
+		return nil
+	}
+	allowedUnknown := map[string]bool{}
+	for _, f := range args.AllowedUnknown {
+		allowedUnknown[f] = true
+	}
+	writes := p.storeWrites()
+	var obls []*Obligation
+	fams := sortedKeys(args.Families)
+	for _, fam := range fams {
+		if _, ok := p.famByName[fam]; !ok {
+			obls = append(obls, &Obligation{Unit: "frame-complete", Kind: "static", Label: fam, Goal: False, Src: "family " + fam + " is not declared"})
+			continue
+		}
+		allowed := map[string]bool{}
+		for _, f := range args.Families[fam] {
+			allowed[f] = true
+		}
+		var bad []string
+		n := 0
+		for _, w := range writes {
+			if w.Family != fam {
+				continue
+			}
+			n++
+			if !allowed[w.Func] {
+				bad = append(bad, fmt.Sprintf("%s (%s at %s)", w.Func, w.Op, w.Pos))
+			}
+		}
+		o := &Obligation{Unit: "frame-complete", Kind: "static", Label: fam, Goal: True,
+			Src: fmt.Sprintf("only %v write store family %s directly (%d write sites found)", args.Families[fam], fam, n)}
+		if len(bad) > 0 {
+			o.Goal = False
+			o.Src = "unexpected writers of store family " + fam + ": " + strings.Join(bad, "; ")
+		}
+		obls = append(obls, o)
+	}
+	// writes with unresolved keys could hit any family
+	var unk []string
+	for _, w := range writes {
+		if w.Family == "" && !allowedUnknown[w.Func] {
+			unk = append(unk, fmt.Sprintf("%s (%s at %s)", w.Func, w.Op, w.Pos))
+		}
+	}
+	sort.Strings(unk)
+	o := &Obligation{Unit: "frame-complete", Kind: "static", Label: "unresolved-keys", Goal: True, Src: "every store write in the module resolves to a declared family or is explicitly allowed"}
+	if len(unk) > 0 {
+		o.Goal = False
+		o.Src = "store writes whose key does not resolve to a declared family: " + strings.Join(unk, "; ")
+	}
+	obls = append(obls, o)
+	return obls
+}
+
+func (p *Program) staticEntryPoints(cfg *PropConfig, ld LoadSpec) []*Obligation { return nil }
+func (p *Program) staticEffects(cfg *PropConfig, ld LoadSpec) []*Obligation    { return nil }
